@@ -188,3 +188,35 @@ Section Dict.
         apply (rank_order (vcmp (child_nf nf desc)) (child_nf nf desc) values); [apply vcmp_tpo|now apply nth_In..].
   Qed.
 End Dict.
+
+(* ------------------------------------------------------------------ lists through rank slices *)
+Lemma lex_ranks vc nf' child : tpo vc -> forall l1 l2 : list oval,
+  (forall o, In o l1 -> In o child) -> (forall o, In o l2 -> In o child) ->
+  lex_cmp Nat.compare (map (rank_fn vc nf' child) l1) (map (rank_fn vc nf' child) l2) = lex_cmp (ncmp nf' false vc) l1 l2.
+Proof.
+  intros Hvc. induction l1 as [|p l1 IH]; intros [|q l2] H1 H2; try reflexivity.
+  cbn [map lex_cmp].
+  assert (E : Nat.compare (rank_fn vc nf' child p) (rank_fn vc nf' child q) = ncmp nf' false vc p q).
+  { apply (rank_order vc nf' child p q Hvc); [apply H1|apply H2]; now left. }
+  rewrite E. destruct (ncmp nf' false vc p q); try reflexivity.
+  apply IH; intros o Ho; [apply H1|apply H2]; now right.
+Qed.
+
+Section ListSort.
+  Variable so : (nat * list nat -> nat * list nat -> comparison) -> list (nat * list nat) -> list (nat * list nat).
+  Variable se : (nat * list nat -> nat * list nat -> comparison) -> nat -> list (nat * list nat) -> list (nat * list nat).
+  Hypothesis Hso : sort_contract so.
+  Hypothesis Hse : select_contract se.
+  Hypothesis Hsoe : sort_ext so.
+  Hypothesis Hsee : select_ext se.
+
+  Theorem sort_list_check child a nf desc limit :
+    (forall i u, slot a i = Some u -> exists l, u = VList l /\ forall o, In o l -> In o child) ->
+    sort_check (cmp_opts nf desc) a limit (sort_list so se child a nf desc limit) = 1%Z.
+  Proof.
+    intros Hl. unfold sort_list. apply (sort_to_indices_check so se Hso Hse Hsoe Hsee).
+    intros i j u v Hu Hv. rewrite Hu, Hv.
+    destruct (Hl i u Hu) as (l1 & -> & H1). destruct (Hl j v Hv) as (l2 & -> & H2).
+    cbn [list_ranks]. rewrite vcmp_list. apply lex_ranks; [apply vcmp_tpo|exact H1|exact H2].
+  Qed.
+End ListSort.
